@@ -234,7 +234,7 @@ func checkC09(c *core.Ctx) {
 	c.Assume("CPU-time limit 10 s per child for inputs <= 64 KiB (race build: 60 s)", "smfdec decides whether bytes are a MIDI file", "both success and refusal are acceptable for arbitrary bytes; only the form of the outcome is judged")
 
 	// ---------------- (1) byte fuzz
-	nf := c.N(2600, 90000)
+	nf := c.N(2600, 200000)
 	c.Stream("fuzz", nf, func(i int, r *rand.Rand) {
 		t := fuzzTargets[i%len(fuzzTargets)]
 		texts, yamls := seedTexts(r), seedYAMLs(r)
